@@ -68,6 +68,8 @@ declarations:
       post_call:
       - "num = last"
 - decl: int overload(int a)
+  doxygen:
+    details: a field the doxygen writer does not know, alone in its mapping
 - decl: int overload(double a)
 - decl: void exfunc()
   cpp_if: ifdef USE_A
